@@ -480,7 +480,7 @@ var c01Controls = []Control{
 	{Name: "wordPart-drop-ExtGlob-case", Rule: "R01a", WantKey: "wordPart#switch WordPart/ExtGlob", File: "syntax/printer.go",
 		Mutate: ctlReplace("Printer.wordPart", "case *ExtGlob:\n\t\tp.w.WriteString(wp.Op.String())\n\t\tp.writeLit(wp.Pattern.Value)\n\t\tp.w.WriteByte(')')", "", 0)},
 	{Name: "arithm-drop-FlagsArithm-case", Rule: "R01a", WantKey: "arithmExprRecurse#switch ArithmExpr/FlagsArithm", File: "syntax/printer.go",
-		Mutate: ctlReplace("Printer.arithmExprRecurse", "case *FlagsArithm:\n\t\tp.w.WriteByte('(')\n\t\tp.w.WriteString(expr.Flags.Value)\n\t\tp.w.WriteByte(')')\n\t\tif expr.X != nil {\n\t\t\tp.arithmExprRecurse(expr.X, compact, false)\n\t\t}", "", 0)},
+		Mutate: ctlReplace("Printer.arithmExprRecurse", "case *FlagsArithm:\n\t\tp.w.WriteByte('(')\n\t\tp.writeLit(expr.Flags.Value)\n\t\tp.w.WriteByte(')')\n\t\tif expr.X != nil {\n\t\t\tp.arithmExprRecurse(expr.X, compact, false)\n\t\t}", "", 0)},
 	{Name: "forget-ArithmExp.Unsigned", Rule: "R01b", WantKey: "syntax.ArithmExp.Unsigned", File: "syntax/printer.go",
 		Mutate: ctlReplace("Printer.wordPart", "if wp.Unsigned {\n\t\t\tp.w.WriteString(\"# \")\n\t\t}", "", 0)},
 	{Name: "forget-SglQuoted.Dollar", Rule: "R01b", WantKey: "syntax.SglQuoted.Dollar", File: "syntax/printer.go",
